@@ -366,6 +366,7 @@ inductive UOp
   | clearTable (k : RemKind)                                 -- `self.<table>.clear()`
   | clearEndpointRef                                         -- `if self.endpoint.tunnel_community is self: …set_tunnel_community(None)`
   | unloadChildren                                           -- `while self.<children>: … await <child>.unload()`
+  | returnIfDown                                             -- `if self._shutdown: return` (control flow: see `UState.runG`)
 deriving Repr, DecidableEq
 
 structure ClassInfo where
@@ -428,6 +429,7 @@ def UState.core (sleeps : RemKind → Bool → Bool) (s : UState) : UOp → USta
   | .clearTable k => s.clear k
   | .clearEndpointRef => if s.w.tunnelRef = some s.self then { s with w := s.w.step (.setRef none) } else s
   | .unloadChildren => { s with children := 0 }
+  | .returnIfDown => s            -- falls through when the flag is not set; the early return itself is in `runG`
 
 /-- statements that suspend `unload` while handlers / tasks of the overlay can still run (`tmShutdown` cancels everything
     before it suspends, so it is not one of them) -/
@@ -456,6 +458,12 @@ def UState.step (sleeps : RemKind → Bool → Bool) (acq : Nat → Nat) (s : US
 
 def UState.run (sleeps : RemKind → Bool → Bool) (acq : Nat → Nat) (s : UState) (script : List UOp) : UState :=
   script.foldl (UState.step sleeps acq) s
+
+/-- The script WITH its control flow: `if self._shutdown: return` ends the unload when the task manager's flag is already
+    set — which the public `shutdown_task_manager()` that every overlay inherits does, too. -/
+def UState.runG (sleeps : RemKind → Bool → Bool) (acq : Nat → Nat) (s : UState) : List UOp → UState
+  | [] => s
+  | op :: rest => if op = .returnIfDown && s.tmDown then s else UState.runG sleeps acq (s.step sleeps acq op) rest
 
 /-- statements after which nothing can be delivered to / run for the overlay any more, once all of them have happened -/
 def UOp.isClosing : UOp → Bool
